@@ -782,7 +782,7 @@ def plan_for(thorough):
              ("h_wif|h_b58", "all", 1), ("h_varint|h_script", "all", 1), ("h_bech32|h_b58", "all", 1)]
     if thorough:
         plan += [("p2pkh0|p2pkh1", "all", 1), ("p2wpkh|p2sh_p2wsh", "all", 1), ("h_wif|h_wif", "all", 1)]
-        plan = [(n, g, 3 if n in ("ckd0|ckd0", "ckd0|ckd1") else b) for n, g, b in plan]
+        plan = [(n, g, 3 if (n in ("ckd0|ckd0", "ckd0|ckd1") and g == "state") else b) for n, g, b in plan]
         plan += [("ckd0|ckd1|ckd2", "state", 2), ("bpA|bpB", "state", 2), ("children|gen", "state", 2), ("gen|gen", "state", 2), ("wif0|wif1", "state", 2),
                  ("xkeys|ckd0", "state", 2), ("hex|bpA", "state", 2), ("generate|wasabi", "state", 1),
                  ("p2wpkh|p2wpkh", "all", 1), ("wif0|wif1", "all", 1), ("bpA|bpB", "all", 1),
